@@ -168,6 +168,14 @@ def main(args):
                     u = {'module': modname, 'prefix': prefix, 'L': L, 'kind': k, 'positions': allpos[c0:c0 + chunk], 'options': o}
                     u.update(dict(max_paths=300, timeout=150, query_timeout_ms=15000) if tier == 'quick' else dict(max_paths=5000, timeout=1500, query_timeout_ms=120000))
                     units.append(u)
+    if getattr(args, 'units_only', False):
+        return units
+    if tier != 'quick':
+        # thorough = the quick tier's units first (larger caps), then everything else while the budget lasts
+        import copy
+        qa = copy.copy(args)
+        qa.tier, qa.units_only = 'quick', True
+        units = common.plan_thorough(units, main(qa))
     rep = common.Report('C17', tier)
     rep.assumptions = ASSUMPTIONS
     rep.bounds = {'scope': [[m, p, lq if tier == 'quick' else lt] for m, p, lq, lt, t in SCOPE]}
@@ -178,7 +186,7 @@ def main(args):
         if args.verbose:
             u = res['unit']
             print('[%d/%d] %s %s L=%s %s %s %s unknown=%s valid_paths=%s limit=%s' % (done, total, u['module'], u['prefix'], u['L'], u['kind'], res.get('outcomes', res.get('error', res.get('skipped'))), res.get('wall_s'), res.get('unknown'), res.get('valid_paths'), res.get('limit')), file=sys.stderr)
-    for res in common.run_units(unit_fn, units, (lambda u: u.get('timeout', 60) * 2 + 60), progress, deadline):
+    for res in common.run_units(unit_fn, (units if tier == 'quick' else sorted(units, key=common._prio)), (lambda u: u.get('timeout', 60) * 2 + 60), progress, deadline):
         for k in lem:
             lem[k] += res.get('lemmas', {}).get(k, 0)
         rep.add_unit(res)
